@@ -88,6 +88,10 @@ def admissible(q):
         return False
     if q.order != 'r1' and abs(q.iotaN) < 1e-3:
         return False
+    if q.order != 'r1':
+        # well-conditioned second order: the O(r^2) shape stays moderate (r_singularity not below 1e-3 of the major radius)
+        if not np.all(np.isfinite(q.X20)) or q.r_singularity < 1e-3 * np.min(q.R0):
+            return False
     return True
 
 
